@@ -230,9 +230,9 @@ def gen_eprt(rng):
     sanity = rng.random() < 0.5
     d = rng.choice([b"|"] * 12 + [b"!", b",", b"x", b"1", b" ", b"-", b"\xff", b":", b"."])
     k = rng.random()
-    if k < 0.5:
+    if k < 0.6:
         proto, ip = rng.choice([(b"1", rng.choice(IPS4)), (b"2", rng.choice(IPS6))])
-    elif k < 0.65:
+    elif k < 0.72:
         proto, ip = rng.choice([(b"2", rng.choice(IPS4)), (b"1", rng.choice(IPS6)), (b"1", rng.choice(IPODD)),
                                 (b"2", rng.choice(IPODD))])
     else:
@@ -242,7 +242,7 @@ def gen_eprt(rng):
             ip = rng.choice(IPS4)
         if proto in (b"4294967298",) and rng.random() < 0.7:
             ip = rng.choice(IPS6)
-    pv = rng.choice(PORTS + [rng.randrange(1, 65536)] * 8 + [rng.randrange(1024, 65536)] * 8)
+    pv = rng.choice(PORTS + [rng.randrange(1, 65536)] * 10 + [rng.randrange(1024, 65536)] * 14)
     port = dec(rng, pv)
     if rng.random() < 0.04:
         port = rng.choice([b"", b"x", b"80x", b"8 0", b"0x50", b"+", b"-"])
